@@ -646,7 +646,7 @@ def solve(em, db, width):
 
     else:
         var_to_elim = exact_var(db, width)
-        if var_to_elim:
+        if var_to_elim is not None:
             is_exact = True
             # print('exact elim %d' % var_to_elim)
         else:
